@@ -41,13 +41,14 @@ Proof.
   induction 1.
   - split; intros; apply ws_ins_refl.
   - destruct IHiso_ins as [A B]. destruct e; cbn [coalesce is_text] in *;
-      try (split; [constructor; exact A | intros _ s; cbn [cons_text]; constructor; constructor; exact A]).
+      try (split; [constructor; exact A | intros _ s9; cbn [cons_text]; constructor; constructor; exact A]).
     split.
     + apply B; reflexivity.
     + intros _ s0. rewrite !cons_text_cons_text. apply B; reflexivity.
   - split; [|discriminate]. cbn. apply wi_add; [assumption | constructor].
   - destruct IHiso_ins as [A _]. split; [|discriminate].
-    cbn [coalesce]. rewrite !(coalesce_markup m) by assumption. rewrite cons_text_markup by assumption.
+    change (coalesce (PT w :: m :: l1)) with (cons_text w (coalesce (m :: l1))).
+    rewrite !(coalesce_markup m) by assumption. rewrite cons_text_markup by assumption.
     apply wi_add; [assumption|]. constructor. exact A.
 Qed.
 
@@ -64,7 +65,6 @@ Lemma coalesce_no_adjacent : forall l, no_adjacent_text (coalesce l) = true.
 Proof.
   induction l as [|e r IH]; cbn; auto.
   destruct e; cbn [coalesce]; try (cbn; destruct (coalesce r) as [|x y]; [reflexivity | destruct x; exact IH]).
-  apply cons_text_nat. exact IH.
 Qed.
 
 (* ---- the automaton --------------------------------------------------------------------------------- *)
@@ -141,7 +141,7 @@ Proof.
       rewrite !flat_map_app, !flat_dt, !Fp. cbn [app]. rewrite indent_none. cbn [flat_map app].
       change (flat_tok (KOpen name attrs)) with [PS name attrs].
       cbn [app].
-      apply iso_step_markup; [reflexivity | | ].
+      rewrite <- ?app_assoc; cbn [app]; apply iso_step_markup; [reflexivity | | ].
       * apply indent_W. intros L. right. subst lt. cbn in HG1. destruct pt; [|discriminate].
         destruct HI as [HI _]. destruct (HI eq_refl) as [Q Mk].
         rewrite (pte_marked st es Mk) in E1. inversion E1; subst. exact Q.
@@ -153,7 +153,7 @@ Proof.
         apply ii_keep. cbn [is_text]. eapply IH; [|exact HG]. split; discriminate.
       * rewrite indent_none. rewrite !flat_map_app. cbn [flat_map app].
         change (flat_tok (KClose name)) with [PE name]. cbn [app].
-        apply iso_step_markup; [reflexivity | | ].
+        rewrite <- ?app_assoc; cbn [app]; apply iso_step_markup; [reflexivity | | ].
         -- apply indent_W. intros L. left. destruct HI as [_ HI]. destruct (HI L) as [P _]. exact P.
         -- eapply IH; [|exact HG]. split; discriminate.
       * cbn [flat_map app]. change (flat_tok (KEmptyEnd name)) with [PE name]. cbn [app].
@@ -188,7 +188,7 @@ Proof.
       destruct (U st0) as [st1' E0]. rewrite E1, E0.
       rewrite indent_none. rewrite !flat_map_app, !Fp. cbn [flat_map app].
       change (flat_tok (KComment t)) with [PC t]. cbn [app].
-      apply iso_step_markup; [reflexivity | | ].
+      rewrite <- ?app_assoc; cbn [app]; apply iso_step_markup; [reflexivity | | ].
       * apply indent_W. intros L. left. destruct HI as [_ HI]. destruct (HI L) as [P Mk].
         rewrite (pte_marked st es Mk) in E1. inversion E1; subst. exact P.
       * eapply IH; [|exact HG]. split; [|discriminate].
@@ -200,7 +200,7 @@ Proof.
       destruct (U st0) as [st1' E0]. rewrite E1, E0.
       rewrite indent_none. rewrite !flat_map_app, !Fp. cbn [flat_map app].
       change (flat_tok (KPI t d)) with [PP t d]. cbn [app].
-      apply iso_step_markup; [reflexivity | | ].
+      rewrite <- ?app_assoc; cbn [app]; apply iso_step_markup; [reflexivity | | ].
       * apply indent_W. intros L. left. destruct HI as [_ HI]. destruct (HI L) as [P Mk].
         rewrite (pte_marked st es Mk) in E1. inversion E1; subst. exact P.
       * eapply IH; [|exact HG]. split; [|discriminate].
@@ -239,19 +239,10 @@ Lemma run_strip : forall ind evs st0 st es dt,
 Proof.
   intros ind evs. induction evs as [|e r IH]; intros st0 st es dt.
   - cbn [run_events]. rewrite indent_toks_filter. reflexivity.
-  - destruct e as [name attrs | name | t | t | t | t d]; cbn [run_events step].
-    + destruct es as [|[|] es1]; cbn [pte]; rewrite !filter_app, !indent_toks_filter; cbn [filter not_ws app];
-        destruct dt; cbn [filter not_ws app]; try (f_equal; apply IH); f_equal; try (f_equal; apply IH); apply IH.
-    + destruct es as [|[|] es1]; rewrite ?filter_app, ?indent_toks_filter; cbn [filter not_ws app indent_toks];
-        f_equal; apply IH.
-    + destruct t; [apply IH|]. destruct es as [|[|] es1]; cbn [pte]; rewrite !filter_app; cbn [filter not_ws app];
-        repeat f_equal; apply IH.
-    + destruct t; [apply IH|]. destruct es as [|[|] es1]; cbn [pte]; rewrite !filter_app, !indent_toks_filter;
-        cbn [filter not_ws app indent_toks]; repeat f_equal; apply IH.
-    + destruct es as [|[|] es1]; cbn [pte]; rewrite !filter_app, !indent_toks_filter;
-        cbn [filter not_ws app indent_toks]; repeat f_equal; apply IH.
-    + destruct es as [|[|] es1]; cbn [pte]; rewrite !filter_app, !indent_toks_filter;
-        cbn [filter not_ws app indent_toks]; repeat f_equal; apply IH.
+  - destruct e as [name attrs | name | t | t | t | t d]; cbn [run_events step];
+      try (destruct t; [apply IH|]); destruct es as [|[|] es1]; destruct dt; cbn [pte];
+      rewrite ?filter_app, ?indent_toks_filter; cbn [filter not_ws app indent_toks];
+      rewrite <- ?app_assoc; cbn [app]; repeat first [apply IH | f_equal].
 Qed.
 
 (* ---- refutation witness ------------------------------------------------------------------------------ *)
@@ -318,7 +309,7 @@ Lemma stream_encode_representable : forall k s, k <> EncUtf8 -> forallb (represe
 Proof.
   intros k s Hk. induction s as [|c r IH]; cbn [forallb flat_map]; auto.
   intros H. apply andb_true_iff in H. destruct H as [H1 H2]. rewrite IH by exact H2.
-  destruct k; cbn in *; try rewrite H1; try reflexivity. contradiction.
+  destruct k; cbn in *; try rewrite H1; reflexivity.
 Qed.
 
 (* ---- option selection ------------------------------------------------------------------------------- *)
@@ -333,7 +324,7 @@ Definition no_late_cdata (outs : list (list oattr)) : Prop :=
 
 Lemma apply_attr_method : forall r a,
   r_method (apply_attr r a) = match a with AMethod m => m | _ => r_method r end.
-Proof. intros r a. destruct a; cbn; auto. destruct (r_method r); reflexivity. Qed.
+Proof. intros r a. destruct a; cbn; auto. destruct (r_method r) eqn:E; cbn; auto. Qed.
 
 Lemma apply_attr_encoding : forall r a,
   r_encoding (apply_attr r a) = match a with AEncoding s => s | _ => r_encoding r end.
@@ -380,6 +371,16 @@ Proof.
   - apply IH.
 Qed.
 
+Lemma fold_AMethod_eq : forall o acc,
+  fold_left (fun acc a => match (match a with AMethod m => Some m | _ => None end) with Some x => Some x | None => acc end) o acc =
+  fold_left (fun acc x => match x with AMethod m => Some m | _ => acc end) o acc.
+Proof. induction o as [|a o IH]; intros acc; cbn; auto. destruct a; apply IH. Qed.
+
+Lemma fold_AEncoding_eq : forall o acc,
+  fold_left (fun acc a => match (match a with AEncoding m => Some m | _ => None end) with Some x => Some x | None => acc end) o acc =
+  fold_left (fun acc x => match x with AEncoding m => Some m | _ => acc end) o acc.
+Proof. induction o as [|a o IH]; intros acc; cbn; auto. destruct a; apply IH. Qed.
+
 Lemma process_outputs_method_gen : forall outs r,
   r_method (fold_left (fun r o => finish_output (fold_left apply_attr o r)) outs r) =
   match last_some (fun a => match a with AMethod m => Some m | _ => None end) outs with
@@ -392,11 +393,7 @@ Proof.
     rewrite IH. unfold last_some.
     set (F := fold_left _ (concat outs) None).
     rewrite (fold_some_init _ (fun a => match a with AMethod m => Some m | _ => None end) o F).
-    replace (fold_left (fun acc x => match x with AMethod m => Some m | _ => acc end) o None)
-      with (fold_left (fun acc a => match (match a with AMethod m => Some m | _ => None end) with Some x => Some x | None => acc end) o None).
-    + destruct (fold_left _ o None); auto.
-    + clear. generalize (@None omethod). induction o as [|a o IH]; intros acc; cbn; auto.
-      destruct a; apply IH.
+    rewrite <- fold_AMethod_eq. destruct (fold_left _ o None); auto.
 Qed.
 
 Theorem process_outputs_method : forall outs, r_method (process_outputs outs) = spec_method outs.
@@ -417,11 +414,7 @@ Proof.
     rewrite IH. unfold last_some.
     set (F := fold_left _ (concat outs) None).
     rewrite (fold_some_init _ (fun a => match a with AEncoding m => Some m | _ => None end) o F).
-    replace (fold_left (fun acc x => match x with AEncoding m => Some m | _ => acc end) o None)
-      with (fold_left (fun acc a => match (match a with AEncoding m => Some m | _ => None end) with Some x => Some x | None => acc end) o None).
-    + destruct (fold_left _ o None); auto.
-    + clear. generalize (@None (list N)). induction o as [|a o IH]; intros acc; cbn; auto.
-      destruct a; apply IH.
+    rewrite <- fold_AEncoding_eq. destruct (fold_left _ o None); auto.
 Qed.
 
 Theorem process_outputs_encoding : forall outs, r_encoding (process_outputs outs) = spec_encoding outs.
